@@ -209,8 +209,12 @@ def cases(draw, tier):
     code = list(draw(st.sampled_from([[], [0x31] + _w(safe_sp), [0xFB], [0x3E, vpage, 0xED, 0x47, 0xED, 0x5E, 0xFB]])))
     for p in parts:
         code.extend(p)
-    tail = draw(st.sampled_from(['jp', 'jp', 'jp', 'jp', 'halt-loop', 'halt-loop', 'none' if wild else 'jp']))
-    if tail == 'jp' or focus2:
+    tail = draw(st.sampled_from(['jp', 'jp', 'jp', 'jp', 'halt-loop', 'halt-loop', 'none' if wild else 'jp', 'sp-boundary' if wild else 'halt-loop']))
+    if tail == 'sp-boundary' and not focus2:
+        # the frame interrupt is accepted with the stack pointer on the ROM/RAM boundary: one byte of the return
+        # address is dropped, the other is written
+        code += [0x31] + _w(draw(st.sampled_from([0x4001, 0x4001, 0x0001, 0x4002, 0x4000]))) + [0xFB, 0x76, 0xC3] + _w(base)
+    elif tail == 'jp' or focus2:
         code += [0xC3] + _w(base)
     elif tail == 'halt-loop':
         code += [0xFB, 0x76, 0xC3] + _w(base)
@@ -223,7 +227,7 @@ def cases(draw, tier):
     regs = draw(gen_prog.registers())
     im = draw(st.sampled_from([0, 1, 1, 1, 2, 2]))
     if wild:
-        regs['SP'] = draw(st.one_of(st.sampled_from([0xFF00, 0x7FFE, 0x5C00, 0xFFFE, 0x0000, 0x4001]), gen_prog.word))
+        regs['SP'] = draw(st.one_of(st.sampled_from([0xFF00, 0x7FFE, 0x5C00, 0xFFFE, 0x0000, 0x4001, 0x4001, 0x4001, 0x0001, 0x4002, 0x4003]), gen_prog.word))
         o7ffd = draw(st.one_of(st.sampled_from([0, 0x10, 0x07, 0x11, 0x17, 0x30]), st.integers(0, 255))) if is128 else 0
     else:
         regs['SP'] = safe_sp
